@@ -126,6 +126,11 @@ def run(ctx):
         for what, m in muts:
             if m == e: continue
             for ui in users:
+                # the same instance has just opened the ORIGINAL with this key: a decapsulation whose answer depends on
+                # what the instance opened before (memo, cache, early-abort on the tag alone) is exercised as well
+                if ui in au:
+                    im0, _ = ask(e, usks[ui]); n += 1
+                    if im0 != 'SOME:' + s: vf.violation(ctx, 'decapsulation of an unmodified encapsulation did not return the encapsulated secret', {'enc_hex': e.hex(), 'usk_hex': usks[ui], 'impl': im0, 'expected': s})
                 im, rf = ask(m, usks[ui]); n += 1
                 cls = im.split(':')[0]
                 hist[f'{what} -> {cls}'] = hist.get(f'{what} -> {cls}', 0) + 1
@@ -157,6 +162,6 @@ def replay(ctx, path):
     rep = json.load(open(path))
     vf.build_harness(ctx); vf.build_coq(ctx)
     layout, _ = coq_layout(ctx)
-    r = subprocess.run([vf.harness_bin('mutd'), layout], input=f"TRY {rep['mutated_enc_hex']} {rep['usk_hex']}\n", capture_output=True, text=True)
-    print(r.stdout)
-    return 1 if 'impl=SOME' in r.stdout else 0
+    r = subprocess.run([vf.harness_bin('mutd'), layout], input=f"TRY {rep['original_enc_hex']} {rep['usk_hex']}\nTRY {rep['mutated_enc_hex']} {rep['usk_hex']}\n", capture_output=True, text=True)
+    print(r.stdout)      # first line: the original opened by the same instance; second line: the mutant
+    return 1 if 'impl=SOME' in r.stdout.strip().split('\n')[-1] else 0
